@@ -33,7 +33,7 @@ CHECKS = {
              "matrices) must restore lost blocks bit-exactly and leave every other block and guard zone untouched; raid_check/raid_scan "
              "accept/reject as the MDS distance dictates; all index sets enumerated for nd<=4 (quick) / 7 (thorough); all minors up to "
              "order 3 (quick) / 4 (thorough) shown non-singular by independent elimination, orders above sampled.",
-        note="Minors of order 5 and 6 are sampled, not enumerated; expected blocks come from the independent encoder, not from raid_gen.",
+        note="Also sequences of 2-4 related decode requests in one process with the mode set once (recseq). Minors of order 5 and 6 are sampled, not enumerated; expected blocks come from the independent encoder, not from raid_gen.",
         design="DESIGN.md section 4, C03"),
     "C01": dict(
         category="exploration",
@@ -42,7 +42,7 @@ CHECKS = {
         text="Generated configurations and sync histories, then device-level (<=N devices, several shapes each) or stripe-level (<=N "
              "victims per stripe chosen on the independently parsed block map) damage, all but one content copy optionally removed; "
              "fix must exit 0 without unrecoverable reports, the data disks must equal the snapshot taken at the sync (bytes, mtime "
-             "in ns, links, empty dirs, hard-link groups), check must pass and the C06 parity oracle must hold. ~8000 cases quick, "
+             "in ns, links, empty dirs, hard-link groups), check must pass and the C06 parity oracle must hold. ~32000 cases quick, "
              "160k thorough.",
         note="Silent corruption is generated only with hash size >= 8 (collisions of 2/4-byte hashes are legitimate misses); arrays "
              "are small; lost disks keep their mount directory.",
@@ -95,7 +95,7 @@ CHECKS = {
              "untouched; recovered-with-other-bytes, silent rewrites, writes to unknown paths or to content files are violations. "
              "Two listed known findings (C05-chg-length, C05-hybrid) are recognised by specific signatures, counted, and the search "
              "continues past them; their regression cases are replayed on every run.",
-        note="Hash size 16; silent byte changes only in blocks with a recorded hash of current data (the property's damage domain); "
+        note="A third of the cases plant copies that keep their name on another disk in the unfinished sync (optionally a second unfinished round after replacing them). Hash size 16; silent byte changes only in blocks with a recorded hash of current data (the property's damage domain); "
              "a fix that stops with a fatal error is re-run as the tool asks and the completed run is judged.",
         design="DESIGN.md section 4, C05 and section 7"),
     "C04": dict(
@@ -107,7 +107,7 @@ CHECKS = {
              "the damaged blocks (disk, file, file position / level, stripe), exit non-zero, and scrub must mark exactly the covered "
              "damaged stripes bad (independent content parse, status has_bad, scrub -p bad re-reports them); undamaged arrays give "
              "exit 0, no error, no mark.",
-        note="Truncated-hash collisions are recomputed by the oracle and exempted; parity verdicts are expected only where the "
+        note="Shapes include the swap of two blocks; after a scrub, the repeated scrub -p bad and a following check are compared block by block. Truncated-hash collisions are recomputed by the oracle and exempted; parity verdicts are expected only where the "
              "command can judge the stripe (scrub: all data of the stripe correct; check: <= N damaged blocks); swap-of-two-blocks shape "
              "is not generated yet.",
         design="DESIGN.md section 4, C04"),
@@ -120,7 +120,7 @@ CHECKS = {
              "content-copy-missing condition; everything below the scratch root is snapshotted before and after and each changed path "
              "must be allowed for that command (read-only: nothing; scrub: content; sync: content+parity; fix: only reported paths and "
              "parity_fixed blocks, never content; pool: pool dir; touch: zero sub-seconds + content).",
-        note="Block-wise attribution of parity changes by fix is done for single-file parity levels; for split levels only the file "
+        note="Touch cases make whole-second time-stamps frequent; fix cases replace recorded empty files by symbolic links; pool cases record a link to a directory with an empty sub-directory. Block-wise attribution of parity changes by fix is done for single-file parity levels; for split levels only the file "
              "set is checked.",
         design="DESIGN.md section 4, C12"),
     "C14": dict(
@@ -133,7 +133,7 @@ CHECKS = {
              "the lock. Without override: exit != 0 and content, parity and data byte-identical; with the override (or restored "
              "configuration, or the first command finished) the sync completes and the C06 oracle holds; control cases must not be "
              "refused.",
-        note="An absent parity file may be created empty by a refused sync; refusals for 'Insufficient parity space' under "
+        note="Triggers include a renamed disk line (without usable UUIDs) and disks that keep a recorded empty directory. An absent parity file may be created empty by a refused sync; refusals for 'Insufficient parity space' under "
              "--test-parity-limit are legitimate and counted as trivial.",
         design="DESIGN.md section 4, C14"),
     "C10": dict(
@@ -160,7 +160,7 @@ CHECKS = {
              "produces a raw line break in the tag log; pool = one link per recorded sub-path to a recording disk, stale links and empty "
              "dirs removed, foreign files kept, data disks untouched. One listed known finding (C20-pool-stale-link-over-dir) is "
              "recognised by signature.",
-        note="Terminal listings are judged for names without line breaks (tag log is the program channel); pool is not judged when a "
+        note="A last stage corrupts blocks silently, scrubs and compares status with the content file (bad marks). Terminal listings are judged for names without line breaks (tag log is the program channel); pool is not judged when a "
              "sub-path is a file on one disk and a directory on another.",
         design="DESIGN.md section 4, C20"),
     "C15": dict(
@@ -185,7 +185,7 @@ CHECKS = {
              "are block multiples covered by the files, only the last used split grows and space is released from the end, the C06 "
              "oracle holds through the recorded mapping, exit statuses agree; finally a data disk or a single split file is lost and "
              "repaired to the snapshot, unused trailing splits are dropped from the configuration and dropping a used one is refused.",
-        note="2..8 splits per level with unaligned per-split limits of 2..11 blocks; 'Insufficient parity space' refusals are trivial "
+        note="The per-split limit may be raised in the middle of a case (no split ever gets less room). 2..8 splits per level with unaligned per-split limits of 2..11 blocks; 'Insufficient parity space' refusals are trivial "
              "cases; alpha scan order and untrusted inodes keep the twins' allocation identical.",
         design="DESIGN.md section 4, C17"),
     "C18": dict(
@@ -212,7 +212,7 @@ CHECKS = {
              "BLK hash equals the independent hash of the bytes on disk, C06 holds, -h leaves parity untouched, --force-nocopy then "
              "succeeds); moved files keep block map and hashes and need no reading when nothing else changed, every other new file is "
              "read completely; fix never restores from imported/searched data bytes that differ from the recorded version.",
-        note="Hash size 16 in decoy cases; trusted inodes only on the first two disks; using a valid import offer is not required "
+        note="Decoy / copy entries may remove their source; offered decoys may share whole blocks with the lost file. Hash size 16 in decoy cases; trusted inodes only on the first two disks; using a valid import offer is not required "
              "(a stripe with another unrecoverable block is given up as a whole).",
         design="DESIGN.md section 4, C19"),
     "C08": dict(
@@ -224,7 +224,7 @@ CHECKS = {
              "diagnostic; the stripe of every fired fault that the command looked at must not be recorded as synced and healthy "
              "(pending block or bad mark; status shows it); every other stripe must be processed (C06 oracle) unless the run stopped "
              "at the error limit; fix -e + scrub -p bad, or the next sync, must leave no bad/unsynced stripe.",
-        note="Non-split parity; faults that fired only in read-ahead beyond the stripe where the command stopped are not counted; "
+        note="Scrub is also run on arrays with changes that were not synced (core clauses only). Non-split parity; faults that fired only in read-ahead beyond the stripe where the command stopped are not counted; "
              "quick samples faults, thorough uses the same generator with 12x the cases (not a full enumeration of every call).",
         design="DESIGN.md section 4, C08"),
     "C09": dict(
